@@ -497,7 +497,9 @@ fn prov_script<C: roto::Context + 'static>(drv: &mut Driver, rep: &mut Report, r
             return false;
         }
     };
-    prov_fns(drv, rep, &fns, what, d, src)
+    let a = prov_fns(drv, rep, &fns, what, d, src);
+    let b = defuse_fns(drv, rep, &fns, what, d, src);
+    a && b
 }
 fn prov_script0(drv: &mut Driver, rep: &mut Report, rt: &Runtime<NoCtx>, what: &str, d: &D, src: &str) -> bool {
     let fns = match std::panic::catch_unwind(std::panic::AssertUnwindSafe(|| roto::verif_hooks::c05::mem_ops(FileTree::test_file("c05.roto", src, 0), rt))) {
@@ -511,7 +513,72 @@ fn prov_script0(drv: &mut Driver, rep: &mut Report, rt: &Runtime<NoCtx>, what: &
             return false;
         }
     };
-    prov_fns(drv, rep, &fns, what, d, src)
+    let a = prov_fns(drv, rep, &fns, what, d, src);
+    let b = defuse_fns(drv, rep, &fns, what, d, src);
+    a && b
+}
+
+/// The blocks of every lowered item against the definite-assignment check of
+/// `Model/BoundaryDefUse.lean` (`Cfg.check` with the certificate `certify`, driver `c05 defuse`):
+/// on no path is a variable read before it was assigned (`Props/C05DefUse.no_read_of_unassigned`).
+/// A read of the host lowered once and re-used where its definition does not reach fails here.
+fn defuse_fns(drv: &mut Driver, rep: &mut Report, fns: &[roto::verif_hooks::c05::MemFn], what: &str, d: &D, src: &str) -> bool {
+    let mut all_ok = true;
+    for f in fns {
+        let mut names: Vec<String> = vec![];
+        let mut num = |n: &str| -> usize {
+            match names.iter().position(|x| x == n) {
+                Some(i) => i,
+                None => {
+                    names.push(n.to_string());
+                    names.len() - 1
+                }
+            }
+        };
+        let mut q = String::from("c05 defuse");
+        for v in &f.initial {
+            q.push_str(&format!(" {}", num(v)));
+        }
+        for (_, range, succs) in &f.blocks {
+            q.push_str(" |");
+            for sl in succs {
+                match f.blocks.iter().position(|b| &b.0 == sl) {
+                    Some(i) => q.push_str(&format!(" {i}")),
+                    // a jump to a block that does not exist: index out of range, the check rejects it
+                    None => q.push_str(&format!(" {}", f.blocks.len())),
+                }
+            }
+            for o in &f.ops[range.clone()] {
+                q.push_str(" ;");
+                for x in o.operands.iter().flatten() {
+                    q.push_str(&format!(" {}", num(x)));
+                }
+                q.push_str(" >");
+                match &o.to {
+                    Some(t) => q.push_str(&format!(" {}", num(t))),
+                    None => q.push_str(" -"),
+                }
+            }
+        }
+        let ans = drv.ask(&q);
+        rep.evaluations += 1;
+        rep.hist("defuse_blocks_per_function", f.blocks.len().min(12).to_string());
+        if ans.starts_with("ok") {
+            continue;
+        }
+        all_ok = false;
+        let w: Vec<&str> = ans.split(' ').collect();
+        let blk = w.get(1).and_then(|s| s.parse::<usize>().ok());
+        let idx = w.get(2).and_then(|s| s.parse::<usize>().ok());
+        let var = w.get(3).and_then(|s| s.parse::<usize>().ok()).and_then(|i| names.get(i));
+        let ins = blk.and_then(|b| f.blocks.get(b)).and_then(|b| idx.map(|i| b.1.start + i)).and_then(|i| f.ops.get(i));
+        rep.mismatch(
+            "the LIR of a generated script reads a variable that is not assigned on every path to the read (the code generator supplies 0 there): outside the fragment for which every read is proved to see an assigned value",
+            json!({"source": what, "type": d.roto(), "function": f.name, "block": blk.and_then(|b| f.blocks.get(b)).map(|b| b.0.clone()),
+                   "instruction": ins.map(|o| format!("{o:?}")), "unassigned_variable": var, "model": ans, "script": src}),
+        );
+    }
+    all_ok
 }
 
 fn prov_fns(drv: &mut Driver, rep: &mut Report, fns: &[roto::verif_hooks::c05::MemFn], what: &str, d: &D, src: &str) -> bool {
@@ -573,6 +640,7 @@ fn prov_fns(drv: &mut Driver, rep: &mut Report, fns: &[roto::verif_hooks::c05::M
                     q.push(' ');
                     q.push_str(&opnd(&o.operands.first().cloned().flatten(), &mut num, "-"));
                 }
+                "ct" => {}
                 _ => {
                     for x in &o.operands {
                         q.push(' ');
